@@ -104,7 +104,9 @@ use lance_core::Error;
 use lance_index::frag_reuse::FragReuseGroup;
 use lance_index::DatasetIndexExt;
 use lance_table::format::{Fragment, RowIdMeta};
-use roaring::{RoaringBitmap, RoaringTreemap};
+use roaring::RoaringBitmap;
+#[cfg(test)]
+use roaring::RoaringTreemap;
 use serde::{Deserialize, Serialize};
 use snafu::location;
 use tracing::info;
@@ -779,18 +781,9 @@ async fn rewrite_files(
             .await?;
         }
 
-        if options.defer_index_remap {
-            // The fragment reuse index records the ids of the new fragments, so they must be
-            // reserved now (as in the address style branch above) and not when the rewrite
-            // is committed.
-            reserve_fragment_ids(&dataset, new_fragments.iter_mut()).await?;
-            let no_addrs = RoaringTreemap::new();
-            let mut serialized_no_addrs = Vec::with_capacity(no_addrs.serialized_size());
-            no_addrs.serialize_into(&mut serialized_no_addrs)?;
-            (None, Some(serialized_no_addrs))
-        } else {
-            (Some(HashMap::new()), None)
-        }
+        // Indices on a table with stable row ids store row ids, which a rewrite does not
+        // change, so there is nothing to remap and nothing to defer (see `commit_compaction`).
+        (Some(HashMap::new()), None)
     };
 
     metrics.files_removed = task
@@ -993,8 +986,11 @@ pub async fn commit_compaction(
         return Ok(CompactionMetrics::default());
     }
 
+    // Deferring the index remap only makes sense if there is something to remap.  With stable
+    // row ids a fragment reuse index would be applied to row ids as if they were addresses.
+    let defer_index_remap = options.defer_index_remap && !dataset.manifest.uses_stable_row_ids();
     // If we aren't using stable row ids, then we need to remap indices.
-    let needs_remapping = !dataset.manifest.uses_stable_row_ids() && !options.defer_index_remap;
+    let needs_remapping = !dataset.manifest.uses_stable_row_ids() && !defer_index_remap;
 
     let mut rewrite_groups = Vec::with_capacity(completed_tasks.len());
     let mut metrics = CompactionMetrics::default();
@@ -1011,7 +1007,7 @@ pub async fn commit_compaction(
         };
         if needs_remapping {
             row_id_map.extend(task.row_id_map.unwrap());
-        } else if options.defer_index_remap {
+        } else if defer_index_remap {
             frag_reuse_groups.push(FragReuseGroup {
                 changed_row_addrs: task.changed_row_addrs.unwrap(),
                 old_frags: task.original_fragments.iter().map(|f| f.into()).collect(),
@@ -1044,7 +1040,7 @@ pub async fn commit_compaction(
                 new_index_version: rewritten.index_version,
             })
             .collect()
-    } else if !options.defer_index_remap {
+    } else if !defer_index_remap {
         // We need to reserve fragment ids here so that the fragment bitmap
         // can be updated for each index.
         let new_fragments = rewrite_groups
@@ -1057,7 +1053,7 @@ pub async fn commit_compaction(
         Vec::new()
     };
 
-    let frag_reuse_index = if options.defer_index_remap {
+    let frag_reuse_index = if defer_index_remap {
         Some(build_new_frag_reuse_index(dataset, frag_reuse_groups, new_fragment_bitmap).await?)
     } else {
         None
